@@ -108,7 +108,7 @@ def evaluate(i, scn):
 
 
 def main():
-    a, rep, replay = parse(PROP)
+    a, rep, replay = parse(PROP, aged=True)
     rep.assumptions = [
         "the harness builds U orthonormal and orthogonal to the constant vector by QR (numpy); the prediction is exact for that input up to rounding",
         "tolerance 1e-8 (exact solver) / 1e-6 (randomised, only when a 10x singular-value gap follows the last mode) relative to the total variance",
